@@ -240,7 +240,7 @@ def discharge(engine: Engine, reports, schedule=None, both=False, workers=16):
             # thorough tier: additionally run both solvers on the unweakened VC and report disagreements
             def cross(o):
                 txt = vc_text(engine, o)
-                res = solver.solve_text(txt, schedule=(("z3", 20), ("cvc5", 20)), both=True)
+                res = solver.solve_text(txt, schedule=(("z3", 10), ("cvc5", 10)), both=True)
                 if res.status == "disagree":
                     o.result, o.ok = res, False
                 return o
